@@ -56,6 +56,46 @@ func appendSitesTo(p *core.Prog, fn *ssa.Function, obj types.Object) []token.Pos
 	if body == nil || pk == nil {
 		return nil
 	}
+	// the variable and every variable whose value is copied into it by a plain assignment (x := y,
+	// x, _ = y, z; var x T = y) — a helper's result reaches its caller's variable through such copies
+	aliases := map[types.Object]bool{obj: true}
+	for changed := true; changed; {
+		changed = false
+		ast.Inspect(body, func(n ast.Node) bool {
+			if _, ok := n.(*ast.FuncLit); ok && n != fn.Syntax() {
+				return false
+			}
+			link := func(lhs, rhs ast.Expr) {
+				l, ok1 := lhs.(*ast.Ident)
+				r0, ok2 := rhs.(*ast.Ident)
+				if !ok1 || !ok2 {
+					return
+				}
+				lo, ro := pk.TypesInfo.ObjectOf(l), pk.TypesInfo.ObjectOf(r0)
+				if lo != nil && ro != nil && aliases[lo] && !aliases[ro] {
+					if _, isVar := ro.(*types.Var); isVar {
+						aliases[ro] = true
+						changed = true
+					}
+				}
+			}
+			switch x := n.(type) {
+			case *ast.AssignStmt:
+				if len(x.Lhs) == len(x.Rhs) {
+					for i := range x.Lhs {
+						link(x.Lhs[i], x.Rhs[i])
+					}
+				}
+			case *ast.ValueSpec:
+				if len(x.Names) == len(x.Values) {
+					for i := range x.Names {
+						link(x.Names[i], x.Values[i])
+					}
+				}
+			}
+			return true
+		})
+	}
 	ast.Inspect(body, func(n ast.Node) bool {
 		if _, ok := n.(*ast.FuncLit); ok && n != fn.Syntax() {
 			return false
@@ -65,7 +105,7 @@ func appendSitesTo(p *core.Prog, fn *ssa.Function, obj types.Object) []token.Pos
 			return true
 		}
 		id, ok := as.Lhs[0].(*ast.Ident)
-		if !ok || pk.TypesInfo.ObjectOf(id) != obj {
+		if !ok || !aliases[pk.TypesInfo.ObjectOf(id)] {
 			return true
 		}
 		if call, ok := as.Rhs[0].(*ast.CallExpr); ok {
@@ -429,6 +469,87 @@ func runC14(p *core.Prog, r *core.Report, tier string) {
 		}
 	}
 	r.Floor("C14.g subscription info writers", nG, 2)
+
+	// ---- (h): accounts of an epoch are subscribed for that epoch ----
+	// subscribeToBeaconCommittees(ctx, E, accounts): the accounts come from the lookup for the same E (a refresh
+	// that re-subscribes another epoch leaves the changed duties of E without subscriptions and its stored info stale)
+	nH := 0
+	for _, f := range p.FuncsIn(ctrlRel) {
+		for _, ci := range core.Calls(f, func(c *ssa.CallCommon) bool {
+			callee := c.StaticCallee()
+			return callee != nil && callee.Name() == "subscribeToBeaconCommittees"
+		}) {
+			args := ci.Common().Args
+			if len(args) < 4 {
+				continue
+			}
+			ed, ad := ds.D(args[len(args)-2]), ds.D(args[len(args)-1])
+			// the epoch the accounts were obtained for
+			var src *core.VD
+			ad.Walk(func(x *core.VD) bool {
+				if x.Kind == "call" && (strings.HasSuffix(x.Name, "accountsAndIndicesForEpoch") || strings.Contains(x.Name, "AccountsForEpoch")) && len(x.Args) >= 1 {
+					src = x.Args[len(x.Args)-1]
+					if strings.Contains(x.Name, "ByIndex") && len(x.Args) >= 2 {
+						src = x.Args[len(x.Args)-2]
+					}
+				}
+				return true
+			})
+			if src == nil {
+				continue // accounts handed in by the caller: checked at that call site
+			}
+			nH++
+			r.Check(src.String() == ed.String(), "C14.h", core.FnKey(f)+"|subscribe-epoch", p.Pos(ci.Pos()), "subscribed for the epoch the accounts were obtained for: "+ed.String(),
+				fmt.Sprintf("beacon committee subscriptions are requested for epoch %s with the accounts obtained for epoch %s", ed, src))
+		}
+	}
+	r.Floor("C14.h subscription calls with locally obtained accounts", nH, 3)
+
+	// ---- (i): the selection hash is over one signature ----
+	// a hasher that lives across iterations accumulates every earlier signature
+	if f := p.Func(aggRel, "Service", "AggregatorsAndSignatures"); f != nil {
+		n := 0
+		core.EachInstr(f, func(in ssa.Instruction) {
+			c, ok := in.(*ssa.Call)
+			if !ok {
+				return
+			}
+			callee := c.Call.StaticCallee()
+			if callee == nil || callee.Pkg == nil || !strings.HasPrefix(callee.Pkg.Pkg.Path(), "crypto/") || callee.Name() != "New" {
+				return
+			}
+			n++
+			// is the hasher written inside a loop that does not contain its creation?
+			bad := false
+			if c.Referrers() != nil {
+				for _, ref := range *c.Referrers() {
+					use, ok := ref.(ssa.CallInstruction)
+					if !ok || !use.Common().IsInvoke() || use.Common().Method.Name() != "Write" {
+						continue
+					}
+					if core.InLoop(use.(ssa.Instruction)) && !sameLoop(c, use.(ssa.Instruction)) {
+						// a Reset in the loop makes it a fresh hasher again
+						reset := false
+						for _, r2 := range *c.Referrers() {
+							if u2, ok := r2.(ssa.CallInstruction); ok && u2.Common().IsInvoke() && u2.Common().Method.Name() == "Reset" && core.InLoop(u2.(ssa.Instruction)) {
+								reset = true
+							}
+						}
+						if !reset {
+							bad = true
+						}
+					}
+				}
+			}
+			r.Check(!bad, "C14.e", core.FnKey(f)+"|hasher-per-signature", p.Pos(c.Pos()), "a fresh hasher is used for every signature", "the hasher is created outside the loop over the signatures and never reset: from the second validator on the hash covers all earlier signatures too, so the is_aggregator flags no longer follow the selection rule")
+		})
+		r.Floor("C14.e hashers in the selection function", n, 1)
+	}
+}
+
+// sameLoop: b is reachable from a and a from b (both lie on one cycle), i.e. a is created in every iteration of b's loop.
+func sameLoop(a, b ssa.Instruction) bool {
+	return reachableAfter(a, b) && reachableAfter(b, a)
 }
 
 // findCallIn returns the call value with the given method name mentioned in a description.
